@@ -7,6 +7,8 @@ mod common;
 mod oracle;
 
 mod c01;
+mod c02;
+mod c11_13;
 
 use common::*;
 
@@ -20,6 +22,9 @@ fn main() {
             return;
         }
         "c01" => c01::run(&args),
+        "c02" => c02::run(&args),
+        "c11" => c11_13::run(&args, false),
+        "c13" => c11_13::run(&args, true),
         other => {
             eprintln!("unknown property subcommand {other:?}");
             std::process::exit(2);
